@@ -19,8 +19,11 @@ MODES = ["own", "alt.Recompose", "oj.Unmarshal", "sen.Unmarshal"]
 # kinds of the C15 menu that can be recomposed at all (exported fields, no custom encoders, no time: see DESIGN-notes/C16.md)
 RT_KINDS = {"bool", "int", "uint8", "float", "string", "*int", "*S", "[]int", "[]uint8", "[]S", "[]*S", "[2]int", "map[string]int",
             "map[string]string", "map[string]*S", "map[string]M", "map[string]*M", "[]M", "[]*M", "any", "S", "anon", "E1", "*E1",
-            "E3", "E4", "Tree", "List", "Node", "*Node", "[]Node", "map[string]Tree", "P", "Ma", "EN", "*EN", "EA", "N", "*N", "[]N", "map[string]N", "IS1", "IS64", "IP1", "*P2", "*Q2", "R1", "[4]uint8", "BA4", "[2]S", "map[string]S", "float32", "[]float32", "[]anyP", "L1", "Str1", "Str2", "Col1", "Col2", "Col3", "T1", "T2", "*T2", "U", "V", "W", "MyInt"}
-NAPI = 16   # round-trip routes: 3 routes x 3 key naming modes x value / pointer source (harness rtAPIs)
+            "E3", "E4", "Pair[int]", "Pair[string]", "Pair[Pair[int]]", "*Pair[int]", "[]Pair[int]", "anyPair", "SP", "E0", "[1]*int", "[1]*S", "Meta", "*Meta", "[]Meta", "map[string]Meta", "Ev", "LogT", "Hat", "Deep3", "Deep4", "Deep5", "Deep6", "Stamp", "Base", "B1", "C1", "D0", "Tree", "List", "Node", "*Node", "[]Node", "map[string]Tree", "P", "Ma", "EN", "*EN", "EA", "N", "*N", "[]N", "map[string]N", "IS1", "IS64", "IP1", "*P2", "*Q2", "R1", "[4]uint8", "BA4", "[2]S", "map[string]S", "float32", "[]float32", "[]anyP", "L1", "Str1", "Str2", "Col1", "Col2", "Col3", "T1", "T2", "*T2", "U", "V", "W", "MyInt"}
+NAPI = 20   # round-trip routes: 3 routes x 3 key naming modes x value / pointer source (harness rtAPIs)
+
+
+PRE = {"m": "map[string]", "s": "[]", "p": "*", "a": "[2]"}
 
 
 def pred_str(p):
@@ -79,7 +82,7 @@ def judge(ctx, cases):
             recs.append({"api": api, "kind": b["kind"], "locus": locus, "witness": {"history": h, "mode": b["api"]},
                          "case": {"h": h, "mode": b["api"]}, "detail": {"m": b["m"], "pred": b["pred"]}})
         else:
-            kinds = "+".join(sorted({f["k"] + ("=" + f["v"] if f["v"] != "n" else "") for f in case.get("f", [])})) or (case.get("top", "") + "=" + case.get("v", ""))
+            kinds = "+".join(sorted({"".join(PRE[x] for x in f.get("c") or []) + f["k"] + ("=" + f["v"] if f["v"] != "n" else "") for f in case.get("f", [])})) or (case.get("top", "") + "=" + case.get("v", ""))
             culprit = classify_rt(case, b["m"])
             api, locus = b["api"], ("alias|" if b["kind"] == "aliased" else "inverse|") + culprit
             cls = b.get("t", "-")
@@ -105,7 +108,7 @@ def classify_rt(case, m):
     fs = case.get("f", [])
     if case.get("top"):
         return "top:" + case["top"]
-    ks = sorted({f["k"] for f in fs})
+    ks = sorted({"".join(PRE[x] for x in f.get("c") or []) + f["k"] for f in fs})
     return "+".join(ks) if len(ks) <= 1 else "+".join(k for k in ks if not k.startswith(("int", "string"))) or "+".join(ks)
 
 
@@ -131,19 +134,24 @@ def main(ctx):
     if g.error or g.violated:
         raise Infra("shape generation failed:\n" + g.out[-2000:])
     sseen = set()
+    GRAPH = {"Stamp", "Base", "B1", "C1", "D0"}
     for c in g.printed("CASE"):
+        # a type embedded along two paths / a diamond holds members that shadowing hides or drops: JSON cannot carry them
+        if sum(1 for f in c["f"] if f["k"] in GRAPH) >= 2:
+            continue
         # W=e holds a *enctypes2.T: its create key "T" names enctypes.T unless FullTypePath is used (ambiguous by design)
         # EN / EA with v = n hold members that Go's shadowing rule hides (inner V under outer V): JSON cannot carry them
-        if all(f["k"] in RT_KINDS and f["t"] in ("", "nm") and not (f["k"] == "W" and f["v"] == "e")
+        if all(f["k"] in RT_KINDS and f["t"] in ("", "nm", "oe") and not (f["k"] == "W" and f["v"] == "e")
                and not (f["k"] in ("EN", "*EN", "EA") and f["v"] == "n") for f in c["f"]) \
                 and len(c["f"]) <= (2 if ctx.quick else 3):
             k = json.dumps(c, sort_keys=True)
             if k not in sseen:
                 sseen.add(k)
                 cases.append(c)
-    for top in ("S", "T1", "T2", "U", "V", "W", "Emb", "EmbPtr", "Str1", "Str2", "Col1", "Col2", "Col3", "L1", "[]anyP", "N", "IS1", "IS64", "IP1", "Tree", "List", "Node", "[]Node", "P", "Ma", "EN", "EA"):
+    for top in ("S", "T1", "T2", "U", "V", "W", "Emb", "EmbPtr", "Str1", "Str2", "Col1", "Col2", "Col3", "L1", "[]anyP", "N", "IS1", "IS64", "IP1", "Tree", "List", "Node", "[]Node", "P", "Ma", "EN", "EA",
+                "Pair[int]", "Pair[string]", "Pair[Pair[int]]", "*Pair[int]", "[]Pair[int]", "SP", "E0", "[1]*int", "[1]*S", "Meta", "*Meta", "[]Meta", "map[string]Meta", "Ev", "LogT", "Hat", "Deep3", "Deep4", "Deep5", "Deep6"):
         for v in ("z", "n", "e"):
-            if (top, v) != ("W", "e") and not (top in ("EN", "EA") and v == "n"):
+            if (top, v) != ("W", "e") and not (top in ("EN", "EA") and v == "n") and not top.startswith("*"):
                 cases.append({"f": [], "top": top, "v": v})
     recs = judge(ctx, cases)
     for r_ in recs:
